@@ -16,11 +16,18 @@ theorem publish_safe {w : World} (h : WInv w) (p : Nat) (topic : PyStr) (payload
     identifier -- window key, `msgId` of the request object and number on the wire are the same `m` -/
 theorem puback_effect {w : World} (h : WInv w) (p : Nat) (ppr : Proto) (hpp : w.protos.get? p = some ppr)
     (hlive : ppr.lost = false) (hconn : ppr.state = .connected) (m rid : Nat)
-    (hl : Ents.lookup w.ents ppr.addr .pub m = some rid) :
+    (hl : Ents.lookup w.ents ppr.addr .pub m = some rid) (hq1 : (w.req rid).qos = 1) :
     ∃ t d, (w.req rid).alarm = some t ∧ (w.req rid).dfd = some d ∧ d ∉ w.fired ∧ (w.req rid).msgId = m ∧
       handlePUBACK p m w = (refillW p false (Ents.count (Ents.remove w.ents ppr.addr .pub m) ppr.addr .queue)
         (fireD (dropArmed w ⟨ppr.addr, .pub, m, rid⟩ t) d (.fired d (.ok (.int m)))), none) :=
-  handlePUBACK_effect h p ppr hpp hlive hconn m rid hl
+  handlePUBACK_effect h p ppr hpp hlive hconn m rid hl hq1
+
+/-- an acknowledgement of the wrong type for the QoS of the message changes nothing: PUBACK bearing the identifier of a QoS 2
+    publish does not complete it, PUBREC bearing the identifier of a QoS 1 publish does not start a release phase -/
+theorem puback_for_qos2 (p m rid : Nat) (w : World) (h : Ents.lookup w.ents (w.paddr p) .pub m = some rid) (hq : (w.req rid).qos ≠ 1) :
+    handlePUBACK p m w = (w, none) := handlePUBACK_wrong_qos p m rid w h hq
+theorem pubrec_for_qos1 (p m rid : Nat) (w : World) (h : Ents.lookup w.ents (w.paddr p) .pub m = some rid) (hq : (w.req rid).qos ≠ 2) :
+    handlePUBREC p m w = (w, none) := handlePUBREC_wrong_qos p m rid w h hq
 
 /-- **PUBCOMP for an identifier whose PUBREL is in flight** (i.e. after the PUBREC): the same for QoS 2 -/
 theorem pubcomp_effect {w : World} (h : WInv w) (p : Nat) (ppr : Proto) (hpp : w.protos.get? p = some ppr)
